@@ -130,7 +130,7 @@ impl Drop for LazyRaw {
 
 impl Debug for LazyRaw {
     fn fmt(&self, f: &mut fmt::Formatter<'_>) -> fmt::Result {
-        let ptr = self.parsed.load(Ordering::Relaxed);
+        let ptr = self.parsed.load(Ordering::Acquire);
         let s = if ptr.is_null() {
             "<nill>".to_string()
         } else {
@@ -159,7 +159,7 @@ impl LazyRaw {
         let parsed = Box::into_raw(Box::new(v));
         match self
             .parsed
-            .compare_exchange_weak(ptr, parsed, Ordering::AcqRel, Ordering::Acquire)
+            .compare_exchange(ptr, parsed, Ordering::AcqRel, Ordering::Acquire)
         {
             // will free by drop
             Ok(_) => Ok(unsafe { &*parsed }),
@@ -242,7 +242,7 @@ impl LazyRaw {
     }
 
     fn clone_lazyraw(&self) -> std::result::Result<LazyRaw, Parsed> {
-        let parsed = self.parsed.load(Ordering::Relaxed);
+        let parsed = self.parsed.load(Ordering::Acquire);
         if parsed.is_null() {
             Ok(LazyRaw {
                 raw: self.raw.clone(),
